@@ -43,19 +43,8 @@ Proof. apply forallb_In. vm_compute. reflexivity. Qed.
 Lemma link_types_in_vocab : forall t, In t enum_link_types -> type_allowed KLink t = true.
 Proof. apply forallb_In. vm_compute. reflexivity. Qed.
 
-(* FULL STATEMENT (false of the current tree): forall t, In t enum_service_types -> type_allowed KNS t = true *)
-Lemma service_types_in_vocab_partial :
-  forall t, In t enum_service_types -> t <> sL2Multisite -> type_allowed KNS t = true.
-Proof.
-  intros t Hin Hne.
-  assert (H : forallb (fun t => str_eqb t sL2Multisite || type_allowed KNS t) enum_service_types = true)
-    by (vm_compute; reflexivity).
-  apply (forallb_In _ _ H) in Hin. apply orb_true_iff in Hin as [Heq|Hok]; [|exact Hok].
-  apply str_eqb_eq in Heq. contradiction.
-Qed.
-Lemma service_types_in_vocab_refuted :
-  exists t, In t enum_service_types /\ type_allowed KNS t = false.
-Proof. exists sL2Multisite. split; vm_compute; [|reflexivity]. tauto. Qed.
+Lemma service_types_in_vocab : forall t, In t enum_service_types -> type_allowed KNS t = true.
+Proof. apply forallb_In. vm_compute. reflexivity. Qed.
 
 (* the types the API itself chooses (component catalogue, facility / switch / peering constructs) *)
 Definition builtin_types_ok : bool :=
